@@ -54,7 +54,15 @@ func c19InFee(p c19Pol, amt uint64) int64 {
 	case r < -10_000_000:
 		r = -10_000_000
 	}
-	return int64(p.ibase) + r*int64(amt)/1000000
+	// rate*amt/1e6 rounded towards zero, written as rate*(amt div 1e6) +
+	// rate*(amt mod 1e6)/1e6: both summands carry the sign of the rate, so
+	// truncation commutes with the sum and the value is the exact quotient
+	// in the integers, while no intermediate product can leave int64.
+	a := int64(amt)
+	f := int64(p.ibase)
+	f += r * (a / 1000000)
+	f += r * (a % 1000000) / 1000000
+	return f
 }
 
 // c19Demand is what a node asks for forwarding `out` msat from channel `in` to
@@ -64,7 +72,7 @@ func c19Demand(in, next c19Pol, out uint64) uint64 {
 	of := c19OutFee(next, out)
 	d := int64(of) + c19InFee(in, out+of)
 	if d < 0 {
-		return 0
+		d = 0
 	}
 	return uint64(d)
 }
@@ -137,6 +145,10 @@ func c19RouteConfig() {
 	vOverflow("github.com/lightningnetwork/lnd/routing.c19Demand")
 	vOverflow("github.com/lightningnetwork/lnd/routing.c19Accepts")
 	vOverflow("github.com/lightningnetwork/lnd/routing.c19RouteBody")
+	// pure accessors: explored once per call and merged (no path fork)
+	vMerge("(*github.com/lightningnetwork/lnd/routing/route.Route).HopFee")
+	vMerge("(*github.com/lightningnetwork/lnd/routing/route.Route).TotalFees")
+	vMerge("(*github.com/lightningnetwork/lnd/routing/route.Route).ReceiverAmt")
 	vAssumption("route construction: every amount carried by a channel of the route <= 10 BTC (max wumbo channel; findPath enforces amt <= capacity/max_htlc per channel), fee_base_msat < 2^32 (wire width), fee rate <= 1e6 ppm, |inbound fee rate| <= C19_INRATE ppm, inbound base any int32, time-lock deltas any uint16, height < 2^31")
 }
 
